@@ -62,6 +62,12 @@ def enumerate_cases(tier):
             for form in ("callable", "rrel"):
                 for uc in (False, True):
                     yield {"keys": keys, "gr": gr, "form": form, "userclass": uc}
+    # a provider that finds nothing: the first registered key decides alone - a less specific key that could resolve
+    # the name must not be asked
+    chain = ["A.r", "*.r", "A.*", "*.*"]
+    for i, k1 in enumerate(chain):
+        for k2 in chain[i + 1:]:
+            yield {"keys": [k1, k2], "none_key": k1, "gr": None, "form": "callable", "userclass": False}
     # re-registration on the same metamodel object: a model is loaded, register_scope_providers is called again with
     # another set of keys (it replaces the set), another model is loaded
     small = [[]] + [[k] for k in KEYS] + [list(p) for p in itertools.combinations(KEYS, 2)]
@@ -129,6 +135,8 @@ def eval_round(out, case, mm_holder, rno):
             from textx import get_model
 
             log.append((type(obj).__name__, attr.name, obj_ref.position, key))
+            if case.get("none_key") == key:
+                return None
             return get_model(obj).conts[idx].subs[0].defs[0]
 
         return provider
@@ -144,6 +152,17 @@ def eval_round(out, case, mm_holder, rno):
     src += f"a a1 r {text_for('A', 'r')} l {text_for('A', 'l')} , {text_for('A', 'l')}\n"
     src += f"b b1 r {text_for('B', 'r')} l {text_for('B', 'l')} , {text_for('B', 'l')}\n"
     out.sample = {"keys": case["keys"], "grammar_rrel": case["gr"], "form": case["form"], "model_tail": src.splitlines()[-2:]}
+    if case.get("none_key"):
+        out.cls("provider_returns_none")
+        out.nontrivial = True
+        try:
+            mm.model_from_str(src)
+        except TextXError as e:
+            if getattr(e, "err_type", None) != "Unknown object":
+                return out.add("none_provider/other_error", f"{out.sample}: {e}")
+            return None
+        return out.add("none_provider/resolved_by_a_less_specific_key", f"{out.sample}: the provider registered for "
+                       f"{case['none_key']} returns None, yet the model loads")
     try:
         m = mm.model_from_str(src)
     except TextXError as e:
